@@ -1,0 +1,90 @@
+// SPDX-FileCopyrightText: 2026 The Pion community <https://pion.ly>
+// SPDX-License-Identifier: MIT
+
+//go:build verif && verif_codec && !js
+
+package webrtc
+
+import (
+	"github.com/pion/sdp/v3"
+)
+
+// Exported wrappers used by the verification harness of the codec family
+// (properties C10, C15, C16, C17). Add-only; nothing here is reachable without
+// the verif and verif_codec build tags.
+
+// VerifCodecsByKind returns a copy of what getCodecsByKind returns.
+func (m *MediaEngine) VerifCodecsByKind(typ RTPCodecType) []RTPCodecParameters {
+	return append([]RTPCodecParameters{}, m.getCodecsByKind(typ)...)
+}
+
+// VerifRegisteredCodecs returns a copy of the registered (not negotiated) list.
+func (m *MediaEngine) VerifRegisteredCodecs(typ RTPCodecType) []RTPCodecParameters {
+	m.mu.RLock()
+	defer m.mu.RUnlock()
+	if typ == RTPCodecTypeAudio {
+		return append([]RTPCodecParameters{}, m.audioCodecs...)
+	}
+
+	return append([]RTPCodecParameters{}, m.videoCodecs...)
+}
+
+// VerifNegotiated reports the negotiated flag and a copy of the negotiated list.
+func (m *MediaEngine) VerifNegotiated(typ RTPCodecType) (bool, []RTPCodecParameters) {
+	m.mu.RLock()
+	defer m.mu.RUnlock()
+	if typ == RTPCodecTypeAudio {
+		return m.negotiatedAudio, append([]RTPCodecParameters{}, m.negotiatedAudioCodecs...)
+	}
+
+	return m.negotiatedVideo, append([]RTPCodecParameters{}, m.negotiatedVideoCodecs...)
+}
+
+// VerifSetMultiCodecNegotiation exposes setMultiCodecNegotiation.
+func (m *MediaEngine) VerifSetMultiCodecNegotiation(on bool) {
+	m.setMultiCodecNegotiation(on)
+}
+
+// VerifUpdateFromRemoteDescription exposes updateFromRemoteDescription.
+func (m *MediaEngine) VerifUpdateFromRemoteDescription(desc sdp.SessionDescription) error {
+	return m.updateFromRemoteDescription(desc)
+}
+
+// VerifCodecByPayload exposes getCodecByPayload.
+func (m *MediaEngine) VerifCodecByPayload(pt PayloadType) (RTPCodecParameters, RTPCodecType, error) {
+	return m.getCodecByPayload(pt)
+}
+
+// VerifRTPParametersByKind exposes getRTPParametersByKind.
+func (m *MediaEngine) VerifRTPParametersByKind(typ RTPCodecType, directions []RTPTransceiverDirection) RTPParameters {
+	return m.getRTPParametersByKind(typ, directions)
+}
+
+// VerifCodecsFromMediaDescription exposes codecsFromMediaDescription.
+func VerifCodecsFromMediaDescription(media *sdp.MediaDescription) ([]RTPCodecParameters, error) {
+	return codecsFromMediaDescription(media)
+}
+
+// VerifFuzzySearch exposes codecParametersFuzzySearch; the match type is
+// returned as 0 (none), 1 (partial), 2 (exact).
+func VerifFuzzySearch(needle RTPCodecParameters, haystack []RTPCodecParameters) (RTPCodecParameters, int) {
+	c, mt := codecParametersFuzzySearch(needle, haystack)
+
+	return c, int(mt)
+}
+
+// VerifFilterUnattachedRTX exposes filterUnattachedRTX (it works in place on
+// the slice it is given, like the original).
+func VerifFilterUnattachedRTX(codecs []RTPCodecParameters) []RTPCodecParameters {
+	return filterUnattachedRTX(codecs)
+}
+
+// VerifFeedbackIntersection exposes rtcpFeedbackIntersection.
+func VerifFeedbackIntersection(a, b []RTCPFeedback) []RTCPFeedback {
+	return rtcpFeedbackIntersection(a, b)
+}
+
+// VerifGetCodecs exposes RTPTransceiver.getCodecs.
+func (t *RTPTransceiver) VerifGetCodecs() []RTPCodecParameters {
+	return append([]RTPCodecParameters{}, t.getCodecs()...)
+}
